@@ -693,10 +693,61 @@ def kinetic(rng, n, dens):
     return [[-L[i][j] / dens[j] for j in range(n)] for i in range(n)]
 
 
+def asymmetric_kinetic(rng, nc):
+    """valid kinetic matrix (zero column sums) that is not symmetric, with its equilibrium densities"""
+    while True:
+        dens = [rng.choice([0.5, 1.0, 2.0, 4.0]) for _ in range(nc)]
+        K = kinetic(rng, nc, dens)
+        if any(K[i][j] != K[j][i] for i in range(nc) for j in range(nc)):
+            return K, dens
+
+
+def transpose(K):
+    return [list(r) for r in zip(*K)]
+
+
+def column_sums(K):
+    return [sum(core.frac(K[i][j]) for i in range(len(K))) for j in range(len(K))]
+
+
+COLUMN_MODES = ["one_entry", "row_pair_zero_total", "zero_row_sums", "all_columns_zero_total", "all_columns",
+                "every_batch_entry_zero_total"]
+
+
+def break_columns(rng, mats, nc, mode):
+    """make column sums non-zero; the *_zero_total modes keep the sum of ALL entries at zero"""
+    d = rng.choice([1.0, -0.5, 2.0 ** -12, 16.0, 2.0 ** -20, -3.0])
+    b, r = rng.randrange(len(mats)), rng.randrange(nc)
+    if mode == "one_entry":
+        mats[b][r][rng.randrange(nc)] += d
+    elif mode == "row_pair_zero_total":
+        c1, c2 = rng.sample(range(nc), 2)
+        mats[b][r][c1] += d
+        mats[b][r][c2] -= d
+    elif mode == "zero_row_sums":
+        mats[b] = transpose(asymmetric_kinetic(rng, nc)[0])       # e.g. [[-a, a], [b, -b]], a != b
+    elif mode == "all_columns_zero_total":
+        offs = [d * (j + 1) for j in range(nc - 1)]
+        offs.append(-sum(offs))
+        for j in range(nc):
+            mats[b][(r + j) % nc][j] += offs[j]
+    elif mode == "all_columns":
+        for j in range(nc):
+            mats[b][(r + j) % nc][j] += d
+    else:
+        for m in mats:
+            c1, c2 = rng.sample(range(nc), 2)
+            rr = rng.randrange(nc)
+            m[rr][c1] += d
+            m[rr][c2] -= d
+    return mats
+
+
 def gen_kinetic(rng, n):
     out = []
     for i in range(n):
-        kind = rng.choice(["shape", "sum", "sum", "sumtol", "negrate", "valid", "tau0", "conserve", "conserve", "conserve_ok"])
+        kind = rng.choice(["shape", "sum", "sum", "sum", "sumtol", "negrate", "valid", "valid_asym", "tau0",
+                           "conserve", "conserve", "conserve_ok", "ctor_apply", "ctor_apply"])
         form = rng.choice(FORMS)
         nc = rng.choice([2, 2, 3, 4])
         batch = rng.choice([[], [], [2], [3], [2, 2]])
@@ -735,14 +786,44 @@ def gen_kinetic(rng, n):
             out.append(case("kinetic", variant, {"call": "apply", "tau": tau, "shape": [nc, nc],
                             "data": [x for r in K for x in r], "form": form, "dens": d}, exp))
             continue
-        mats = [kinetic(rng, nc, dens) for _ in range(size(batch))]
-        exp, variant = "valid", "valid_n%d_batch%dd" % (nc, len(batch))
+        if kind == "ctor_apply":
+            # construction AND application in one call: an invalid matrix must raise at one of the two
+            sub = rng.choice(["zero_row_sums_equal_densities", "zero_row_sums_equal_densities", "row_pair_equal_densities",
+                              "asymmetric_own_equilibrium", "asymmetric_other_densities"])
+            K, kd = asymmetric_kinetic(rng, nc)
+            d = list(kd)
+            exp = "invalid"
+            if sub == "zero_row_sums_equal_densities":
+                K = transpose(K)                       # khi @ (1,..,1) = 0: only the column check can refuse it
+                d = [rng.choice([1.0, 2.0])] * nc
+            elif sub == "row_pair_equal_densities":
+                K = kinetic(rng, nc, [1.0] * nc)       # symmetric, conserving for equal densities
+                K = break_columns(rng, [K], nc, "row_pair_zero_total")[0]
+                d = [1.0] * nc
+            elif sub == "asymmetric_own_equilibrium":
+                exp = "valid"
+            else:
+                p = rng.randrange(nc)
+                d[p] = d[p] * rng.choice([2.0, 0.5, 1.0 + 2.0 ** -10])
+            assert (exp == "valid") == all(x == 0 for x in column_sums(K)) or sub == "asymmetric_other_densities"
+            out.append(case("kinetic", "construct_and_apply_%s_n%d" % (sub, nc),
+                            {"call": "ctor_apply", "tau": tau, "shape": [nc, nc], "data": [x for r in K for x in r],
+                             "form": form, "dens": d}, exp))
+            continue
+        if kind == "valid_asym":
+            mats = [asymmetric_kinetic(rng, nc)[0] for _ in range(size(batch))]
+        else:
+            mats = [kinetic(rng, nc, dens) for _ in range(size(batch))]
+        exp, variant = "valid", "%s_n%d_batch%dd" % ("valid_asymmetric" if kind == "valid_asym" else "valid", nc, len(batch))
         dur = None
         if kind in ("sum", "sumtol"):
             b, r, cc = rng.randrange(len(mats)), rng.randrange(nc), rng.randrange(nc)
             if kind == "sum":
-                mats[b][r][cc] += rng.choice([1.0, -0.5, 2.0 ** -12, 16.0])
-                exp, variant = "invalid", "column%d_sum_nonzero_batch%dd" % (cc, len(batch))
+                mode = rng.choice(COLUMN_MODES)
+                mats = break_columns(rng, mats, nc, mode)
+                worst = max(abs(x) for m in mats for x in column_sums(m))
+                assert worst > 1e-7, (mode, mats)
+                exp, variant = "invalid", "column_sums_%s_n%d_batch%dd" % (mode, nc, len(batch))
             else:
                 mats[b][r][cc] += rng.choice([2.0 ** -40, -2.0 ** -34])
                 exp, variant = "model", "column_sum_within_tolerance"
@@ -766,9 +847,12 @@ def build_kinetic(spec, QK):
         term = "X_ok %s (KhiArr %s %s) %s" % (q(tau), natl(spec["shape"]), ql(spec["data"]), durarg(d))
         return (lambda: epg.X(tau, khi, duration=d)), term
     dens = spec["dens"]
-    op = epg.X(tau, khi)
     sm = epg.StateMatrix(density=dens if len(dens) > 1 else dens[0])
     term = "X_apply_ok %s %s %s" % (nat(spec["shape"][0]), ql(spec["data"]), ql(dens))
+    if spec["call"] == "ctor_apply":
+        term = "X_ok %s (KhiArr %s %s) DNone >> %s" % (q(tau), natl(spec["shape"]), ql(spec["data"]), term)
+        return (lambda: epg.X(tau, khi)(sm)), term
+    op = epg.X(tau, khi)
     return (lambda: op(sm)), term
 
 
